@@ -557,7 +557,7 @@ def judge_add(ctx, work, cases, escape_exe):
             # (class TEXT), it is not by itself a failure of C17 - whether systemd still reads the user's patterns out of
             # it is what the MONITOR line (c17_check) of the same case says
             stats.setdefault("_text_diffs", []).append(
-                {"engine": ENGINE, "class": "TEXT", "input": case_input(c),
+                {"engine": ENGINE, "class": "UNIT_TEXT", "input": case_input(c),
                  "impl": {"unit_file": bytes.fromhex(m.group(4)).decode("utf-8", "backslashreplace")},
                  "model": {"unit_file": bytes.fromhex(m.group(5)).decode("utf-8", "backslashreplace")},
                  "note": "extracted text_class_ok is false on the installed unit: the exclude region of its ExecStart= is not, byte for byte, the model's text for the patterns of the command line"})
@@ -798,9 +798,14 @@ def judge_specs(ctx, dirs, bases, real_bin, listing_exe):
     # the verbose log is trusted only if it parsed and agreed with the opens in EVERY scenario of the run
     diffs, hs, pol = lst.apply_log_policy(diffs, hs, summary)
     hits = []
+    outside_domain = [0]
     for x in diffs:
         what = x["input"].get("what", "")
         if "real-binary" not in what:
+            continue
+        if str(x.get("class", "")).endswith("_OUTSIDE_DOMAIN"):
+            # a listing text outside the kernel's format or a failing /sys lookup: not what C16 quantifies over
+            outside_domain[0] += 1
             continue
         argv = remap_argv(x["input"])
         av = argv["list_keyboards"] if "list_keyboards" in what else argv["dev_file"] if "dev-file" in what else argv["auto"] if "auto-all" in what else argv["all_keyboards"]
